@@ -898,6 +898,12 @@ pub fn write_campaign(seed: u64, max_runs: u64, ops_path: &str, impl_path: &str)
     let mut ops_out = String::new();
     let mut impl_out = String::new();
     let mut evaluations = 0u64;
+    // VERIF_PART=i/n: this process takes every fault position k with k % n == i — all of them, no sampling
+    // (the check runs n processes side by side)
+    let part: Option<(u64, u64)> = std::env::var("VERIF_PART").ok().and_then(|v| {
+        let (a, b) = v.split_once('/')?;
+        Some((a.parse().ok()?, b.parse().ok()?))
+    });
     for (version, small) in [(Version::V3, false), (Version::V4, false), (Version::V3, true), (Version::V4, true)] {
         let ctl = Ctl::new(false, true);
         ctl.small_buffer.store(small, Ordering::SeqCst);
@@ -921,10 +927,14 @@ pub fn write_campaign(seed: u64, max_runs: u64, ops_path: &str, impl_path: &str)
                 }
             }
         };
-        keep(&r0.trace);
+        if part.map(|p| p.0 == 0).unwrap_or(true) {
+            keep(&r0.trace);
+        }
         // every position when affordable; else every position inside the handle script (where a
         // failed flush is retried and judged for durability), a stride through the rest, and random ones
-        let positions: Vec<u64> = if n <= max_runs {
+        let positions: Vec<u64> = if let Some((i, m)) = part {
+            (0..n).filter(|k| k % m.max(1) == i).collect()
+        } else if n <= max_runs {
             (0..n).collect()
         } else {
             let mut v: Vec<u64> = (r0.handle_phase.0..r0.handle_phase.1).collect();
@@ -965,9 +975,11 @@ pub fn write_campaign(seed: u64, max_runs: u64, ops_path: &str, impl_path: &str)
             }
         }
     }
-    let structural = structural_campaign();
-    println!("STAT structural_resizes {}", structural);
-    evaluations += structural;
+    if part.map(|p| p.0 == 0).unwrap_or(true) {
+        let structural = structural_campaign();
+        println!("STAT structural_resizes {}", structural);
+        evaluations += structural;
+    }
     println!("STAT evaluations {}", evaluations);
     std::fs::write(ops_path, ops_out).unwrap();
     std::fs::write(impl_path, impl_out).unwrap();
